@@ -13,7 +13,7 @@ from common import run_worker, lean_driver
 LEVEL = 'proof'
 
 TOPS = ['a', 'b', 'pkg', 'pkgx', 'pk', 'pkg_']
-SUBS = ['a', 'c', 'sub', 'subx', 'deep', 'm']
+SUBS = ['a', 'c', 'sub', 'subx', 'deep', 'm', 'lazy__init__', 'x__main__']      # the last two: look-alikes of the package / main markers
 
 
 def rand_dir(rng, depth, pkg_chance):
